@@ -179,6 +179,20 @@ def check_bep(case, ctx):
     ctx.close('C09.bep/G=H-TS', bep.get_GoRT(reaction=rxn, **kw),
               bep.get_HoRT(reaction=rxn, **kw) - bep.get_SoR(reaction=rxn, **kw), rtol=1e-12,
               atol=1e-12 * scale / RT)
+    # one BEP object serves several reactions: a second reaction (the mirror image, other coefficients) evaluated
+    # afterwards with the same object gets its own barrier, and the first one is unchanged when asked again
+    rxn2 = Reaction(reactants=p, reactants_stoich=[2.0 * x_ for x_ in ps], products=r, products_stoich=[2.0 * x_ for x_ in rs],
+                    transition_state=[bep], transition_state_stoich=[1.0])
+    fresh = BEP(slope=case['slope'], intercept=case['intercept'], name='BEP_TS', descriptor=case['descriptor'])
+    rxn2f = Reaction(reactants=p, reactants_stoich=[2.0 * x_ for x_ in ps], products=r, products_stoich=[2.0 * x_ for x_ in rs],
+                     transition_state=[fresh], transition_state_stoich=[1.0])
+    for rev_ in (False, True):
+        ctx.close('C09.bep/shared-object:second-reaction', bep.get_E_act(units='kcal/mol', reaction=rxn2, rev=rev_, **kw),
+                  fresh.get_E_act(units='kcal/mol', reaction=rxn2f, rev=rev_, **kw), rtol=0, atol=2 * tol, detail='rev=%s %s' % (rev_, d))
+    ctx.close('C09.bep/shared-object:first-again', bep.get_E_act(units='kcal/mol', reaction=rxn, rev=False, **kw), Ef,
+              rtol=0, atol=tol, detail=d)
+    ctx.close('C09.bep/shared-object:H_act-through-TS', rxn2.get_delta_H(units='kcal/mol', act=True, rev=False, **kw),
+              fresh.get_E_act(units='kcal/mol', reaction=rxn2f, rev=False, **kw), rtol=0, atol=2 * tol, detail=d)
 
 
 # ---------------------------------------------------------------------------
